@@ -176,7 +176,9 @@ def probe_source(crate, n, feats, fx):
 '''
     # the verdict corpus: valid, foreign-built and corrupted inputs with the full build's verdict
     want = {"public": "verifying", "local": "decrypting", "pie": "pie-wrap", "pbkw": "pbkw", "seal": "pke"}
-    kind_feat = {"public": "verifying", "local": "decrypting", "pie": "pie-wrap", "pw": "pbkw", "seal": "pke"}
+    kind_feat = {"public": "verifying", "local": "decrypting", "pie": "pie-wrap", "pw": "pbkw", "seal": "pke",
+                 "key-local": "decrypting", "key-public": "verifying", "key-secret": "signing", "key-pkepublic": "pke", "key-pkesecret": "pke"}
+    key_kind = {"key-local": "Local", "key-public": "Public", "key-secret": "Secret", "key-pkepublic": "PkePublic", "key-pkesecret": "PkeSecret"}
     for i, e in enumerate(fx.get("corpus", [])):
         if kind_feat[e["kind"]] not in f:
             continue
@@ -185,6 +187,8 @@ def probe_source(crate, n, feats, fx):
             body = f'"{t}".parse::<paseto_core::SignedToken<V, M, Vec<u8>>>().and_then(|t| t.verify(&key::<Public>("{fx["public_key"]}"), &NoValidation::dangerous_no_validation())).map(|u| u.claims.0)'
         elif e["kind"] == "local":
             body = f'"{t}".parse::<paseto_core::EncryptedToken<V, M, Vec<u8>>>().and_then(|t| t.decrypt(&key::<Local>("{fx["local_key"]}"), &NoValidation::dangerous_no_validation())).map(|u| u.claims.0)'
+        elif e["kind"] in key_kind:
+            body = f'"{t}".parse::<Key<V, {key_kind[e["kind"]]}>>().map(|k| k.expose_key().as_raw_bytes().to_vec())'
         elif e["kind"] == "pie":
             body = f'"{t}".parse::<paseto_core::paserk::PieWrappedKey<V, Local>>().and_then(|w| w.unwrap(&key::<Local>("{fx["wrapping_key"]}"))).map(|k| k.expose_key().as_raw_bytes().to_vec())'
         elif e["kind"] == "pw":
@@ -455,7 +459,7 @@ def main():
     write_evidence("C19", tier, "exploration", {
         "evaluations": evaluations,
         "distinct_nontrivial": len(nontrivial),
-        "rule": "(1) every subset of the feature flags of paseto-v1/v2/v3/v4 collapsed to its distinct closure under the [features] implication graph read from Cargo.toml, each checked with cargo check --no-default-features --features <generators> (plus paseto-core +-serde, paseto-json +-claims): exhaustive over closures; (2) generated probe crates depending on the reduced build (quick: verify-only, decrypt-only, sign+encrypt (no PASERK), id+verify, id+decrypt, pie-wrap only, pbkw only, pke only and 2 seeded closures per crate; thorough: every non-empty closure) replay fixtures produced by the full build (tokens, PIE, PBKW, sealed key, ids for the run's seed) through every operation the closure offers and print what they produce, and give their verdict on a corpus of valid, foreign-built (independent signers incl. high-S ECDSA, reference-model tokens and blobs) and corrupted inputs, which must equal the full build's verdict entry by entry; the full build and the reference model must accept it (deterministic signatures and ids byte-identical); (3) paseto-json: one probe program built against the crate with and without `claims` decodes and re-encodes a generated corpus of JSON texts (doubles of every magnitude in shortest / 18-digit / fixed / serde_json spelling, integer edge values, escapes, nesting, malformed texts) through Json<T> payload and footer: the two outputs must be identical line by line. Non-trivial iff the closure is neither empty nor full / a probe ran",
+        "rule": "(1) every subset of the feature flags of paseto-v1/v2/v3/v4 collapsed to its distinct closure under the [features] implication graph read from Cargo.toml, each checked with cargo check --no-default-features --features <generators> (plus paseto-core +-serde, paseto-json +-claims): exhaustive over closures; (2) generated probe crates depending on the reduced build (quick: verify-only, decrypt-only, sign+encrypt (no PASERK), id+verify, id+decrypt, pie-wrap only, pbkw only, pke only and 2 seeded closures per crate; thorough: every non-empty closure) replay fixtures produced by the full build (tokens, PIE, PBKW, sealed key, ids for the run's seed) through every operation the closure offers and print what they produce, and give their verdict on a corpus of valid, foreign-built (independent signers incl. high-S ECDSA, reference-model tokens and blobs) and corrupted inputs and of key texts (the bytes of every key kind under every key header, parsed as every key kind the closure offers), which must equal the full build's verdict entry by entry; the full build and the reference model must accept it (deterministic signatures and ids byte-identical); (3) paseto-json: one probe program built against the crate with and without `claims` decodes and re-encodes a generated corpus of JSON texts (doubles of every magnitude in shortest / 18-digit / fixed / serde_json spelling, integer edge values, escapes, nesting, malformed texts) through Json<T> payload and footer: the two outputs must be identical line by line. Non-trivial iff the closure is neither empty nor full / a probe ran",
         "samples": samples or [{"note": "no probe ran"}],
         "closures_per_crate": per_crate,
         "probes_run": probes,
